@@ -161,7 +161,7 @@ func (nt *vNet) deliver(kind string, j int, it *vNetItem, note string) bool {
 	expect := false
 	var id vaa.VAAID
 	if kind == "dlv" && it.gs != nil && sameSet(dr.p.gs, it.gs) && len(it.gs.Keys) <= 255 {
-		if pv, err := vaa.Unmarshal(it.vaa); err == nil {
+		if pv, err := vSafeUnmarshal(it.vaa); err == nil {
 			id = *db.VaaIDFromVAA(pv)
 			if _, err := dr.d.GetSignedVAABytes(id); err == db.ErrVAANotFound {
 				expect = true
